@@ -24,6 +24,19 @@ import (
 	"strings"
 )
 
+type ReplaySel struct{ Tmpl, For string }
+
+// replayFor picks the replay template for a failed obligation: a `replay T for S` whose S occurs in the obligation
+// name wins over the function's general `replay T`.
+func (c *Contract) replayFor(obl string) string {
+	for _, r := range c.ReplayFor {
+		if strings.Contains(obl, r.For) {
+			return r.Tmpl
+		}
+	}
+	return c.Replay
+}
+
 type AtClause struct {
 	Prop string // "" or the only property this clause belongs to (written `requires @Cxx E`)
 	Kind string // requires | ghost | assume
@@ -81,6 +94,7 @@ type Contract struct {
 	Stable        []string // heap fields (Type.field) assumed not to be written by any callee of this function
 	RawSMT        []string
 	Replay        string
+	ReplayFor     []ReplaySel // replay <template> for <substring of the obligation name>
 	File          string
 	Line          int
 	atUsed        map[string]bool
@@ -360,7 +374,11 @@ func (cs *ContractSet) loadFile(path, pkgPath string) error {
 			case "uses":
 				cur.Uses = append(cur.Uses, strings.Fields(rest)...)
 			case "replay":
-				cur.Replay = rest
+				if t, f, ok := strings.Cut(rest, " for "); ok {
+					cur.ReplayFor = append(cur.ReplayFor, ReplaySel{Tmpl: strings.TrimSpace(t), For: strings.TrimSpace(f)})
+				} else {
+					cur.Replay = rest
+				}
 			case "params":
 				cur.Params = splitNames(rest)
 			case "results":
